@@ -193,6 +193,20 @@ func Build(d any, h Host) (interface{}, error) {
 			m[k] = int(v.(int64))
 		}
 		return m, nil
+	case "tmapstr":
+		m, err := fields(t[1])
+		if err != nil {
+			return nil, err
+		}
+		out := map[string]string{}
+		for k, v := range m {
+			b, err := bytesOf(v)
+			if err != nil {
+				return nil, err
+			}
+			out[k] = string(b)
+		}
+		return out, nil
 	case "nilmap":
 		return map[string]interface{}(nil), nil
 	case "nilslice":
